@@ -143,7 +143,7 @@ class Chip(object):
             data = struct.pack("<" + fmt, value)
         self.mem.write(base + off, data)
 
-    def sync_structs(self):
+    def sync_structs(self, full=True):
         """Write the machine state into the memory-mapped system blocks."""
         sim = self.sim
         self.put_field("sv", "p2p_addr", (self.x << 8) | self.y)
@@ -157,6 +157,8 @@ class Chip(object):
         self.put_field("sv", "eth_up", 1 if self.eth_up else 0)
         for p in range(18):
             self.sync_core(p)
+        if not full:
+            return
         # point-to-point table: 3 bits per entry, 8 per word, column stride
         # of 256 entries
         for col in range(sim.p2p_w):
@@ -240,6 +242,7 @@ class SimMachine(object):
         self.fate = None           # callable(sim, cmd) -> list of fates
         self.alloc_fail = None
         self.p2p_none = set()      # chips listed as unreachable in p2p table
+        self.full_sync = True      # also materialise p2p table + router copy
         if (0, 0) in self.chips:
             c = self.chips[(0, 0)]
             c.eth_up = True
@@ -247,7 +250,7 @@ class SimMachine(object):
 
     def sync(self):
         for c in self.chips.values():
-            c.sync_structs()
+            c.sync_structs(self.full_sync)
 
     def p2p_entry(self, chip, col, row):
         if (col, row) not in self.chips or (col, row) in self.p2p_none:
@@ -432,8 +435,6 @@ class SimMachine(object):
             if pid == 0 or pid % 2 or pid > 254:
                 self.err("fill id %d is not a doubled id in 2..252" % pid)
             f = Fill(pid, nb, a3)
-            if self.ff_miss is not None:
-                f.miss = set(self.ff_miss(self, f))
             self.cur_fill = f
             self.fills.append(f)
             return (OK, [0, 0, 0], b"")
@@ -468,6 +469,10 @@ class SimMachine(object):
             if complete:
                 image = b"".join(b[2] for b in f.blocks)
                 f.image = image
+                # which chips silently miss this fill is decided by the
+                # harness once the fill's targets are known
+                if self.ff_miss is not None:
+                    f.miss = set(self.ff_miss(self, f))
                 for (cx, cy), chip in self.chips.items():
                     if (cx, cy) in f.miss:
                         continue
